@@ -899,6 +899,11 @@ func (m *Machine) call(caller *frame, fn value, args []value) value {
 		return m.callMaybeMerge(caller, fn.fn, args, fn.env)
 	case *ssa.Builtin:
 		return m.callBuiltin(caller, fn, args)
+	case *nativeFunc:
+		if fn == nil {
+			m.goPanic("runtime error: invalid memory address or nil pointer dereference (call of nil func)")
+		}
+		return fn.f(m, caller, args)
 	case nil:
 		m.goPanic("runtime error: invalid memory address or nil pointer dereference (call of nil func)")
 	}
